@@ -177,7 +177,7 @@ func ruleCryptoConstants(c *core.Ctx, rule string) {
 						o.FailAt(fn.Site(cs.Call, ""), "%s: a re-hash round hashes %s; it must hash only the first keyBytes bytes of the previous digest", c.Prog.Pos(cs.Call.Pos()), c.Prog.Src(arg))
 					}
 				}
-				o.Require(inputs == 1, "expected one hash input per round, found %d", inputs)
+				o.Shape(inputs == 1, "expected one hash input per round, found %d", inputs)
 				// guarded by R >= 3
 				g := fn.Graph()
 				v := g.VertexOf(loopFirstNode(l))
@@ -193,7 +193,7 @@ func ruleCryptoConstants(c *core.Ctx, rule string) {
 					o.Require(ok, "the re-hash loop is not restricted to revision >= 3")
 				}
 			}
-			o.Require(n == 1, "expected one re-hash loop, found %d", n)
+			o.Shape(n == 1, "expected one re-hash loop, found %d", n)
 		})
 	}
 	// RC4 rounds
@@ -230,7 +230,7 @@ func ruleCryptoConstants(c *core.Ctx, rule string) {
 				})
 				o.Require(xor, "the pass key is not XORed with the pass number")
 			}
-			o.Require(n == 1, "expected one RC4 pass loop, found %d", n)
+			o.Shape(n == 1, "expected one RC4 pass loop, found %d", n)
 		})
 	}
 	c.Check(rule, "pdf.slowHash", "Algorithm 2.B: 64 repetitions of the input, at least 64 rounds, continue while last byte > round-32, hash selected by remainder mod 3 (SHA-256/384/512), AES-128-CBC keyed with K[0:16] and IV K[16:32], result K[0:32]", func(o *core.Ob) {
@@ -901,7 +901,7 @@ func rulePlaintextExemptions(c *core.Ctx) {
 				}
 			}
 		}
-		o.Require(n == 1, "expected exactly one place that sets refIsPlaintext, found %d", n)
+		o.Shape(n == 1, "expected exactly one place that sets refIsPlaintext, found %d", n)
 	})
 	c.Check(rule, "pdf.(*Writer).OpenStream/skip-encrypt", "stream data is encrypted unless the reference is exempt or the filter chain starts with a Crypt filter; no other condition skips EncryptStream", func(o *core.Ob) {
 		fn := c.Prog.Func("pdf", "(*Writer).OpenStream")
@@ -910,7 +910,7 @@ func rulePlaintextExemptions(c *core.Ctx) {
 		es := callVertices(g, "pdf.(*encryptInfo).EncryptStream")
 		if len(es) != 1 {
 			o.Count(1)
-			o.Fail("expected one EncryptStream call, found %d", len(es))
+			o.Unrec("expected one EncryptStream call, found %d", len(es))
 			return
 		}
 		o.At(fn.Site(es[0].Call, "EncryptStream"))
@@ -986,7 +986,7 @@ func ruleTrailerEncrypt(c *core.Ctx) {
 		}
 		cs := callVertices(g, "pdf.createStdSecHandler")
 		if len(cs) != 1 {
-			o.Fail("expected one createStdSecHandler call")
+			o.Unrec("expected one createStdSecHandler call")
 			return
 		}
 		o.At(fn.Site(cs[0].Call, "key derivation"))
